@@ -10,6 +10,10 @@ type History struct {
 	Init     InitM   `json:"init"`
 	Ops      []OpM   `json:"ops"`
 	Note     string  `json:"note,omitempty"`
+	// Lazy > 0: the read accessors are compared with the model after every
+	// Lazy-th operation only (and at the end), and block objects the
+	// application already holds are used without asking Blocks() again.
+	Lazy int `json:"lazy_checks,omitempty"`
 }
 
 type InitM struct {
